@@ -283,7 +283,7 @@ def conditions(tier):
     T = tier == "thorough"
     for cls in CLASSES:
         allscope = CLASSES[cls][1] != ("3",)
-        shapes = [(1, 1, 1), (2, 1, 1)] if allscope else [(1, 1, 2), (2, 2, 1), (1, 2, 0)]
+        shapes = [(1, 1, 1), (2, 1, 1)] if allscope else [(1, 1, 2), (2, 2, 1), (1, 2, 0), (2, 1, 1)]
         if T:
             shapes += [(2, 2, 1)] if allscope else [(2, 2, 2)]
         for na, nb, l3 in shapes:
